@@ -48,7 +48,10 @@ const (
 	arRefExcluded                     // overflow / bad shift count reached first
 )
 
-type arRefErr struct{ msg string }
+type arRefErr struct {
+	msg    string
+	noeval bool // raised inside an operand that is not evaluated (short-circuit, untaken ?: branch)
+}
 type arRefExcl struct{ why string }
 
 // arRefEval evaluates src in state st (which is updated).
@@ -58,6 +61,9 @@ func arRefEval(st *arRefState, src string) (val int64, out arRefOutcome, why str
 			switch r := r.(type) {
 			case arRefErr:
 				out, why = arRefError, r.msg
+				if r.noeval {
+					why += " [not evaluated]"
+				}
 			case arRefExcl:
 				out, why = arRefExcluded, r.why
 			default:
@@ -113,7 +119,7 @@ func (p *arRefParser) restore(c arRefCtx) {
 	p.src, p.pos, p.cur, p.last, p.op, p.asg, p.tokstr, p.tokval, p.lasttp = c.src, c.pos, c.cur, c.last, c.op, c.asg, c.tokstr, c.tokval, c.lasttp
 }
 
-func (p *arRefParser) err(msg string) { panic(arRefErr{msg}) }
+func (p *arRefParser) err(msg string) { panic(arRefErr{msg, p.noeval > 0}) }
 
 func (p *arRefParser) subexpr(src string) int64 {
 	if p.depth > 64 {
@@ -618,6 +624,15 @@ func (p *arRefParser) exp0() int64 {
 		}
 		val = v2
 		p.cur = rtNum
+		// a ++ or -- right after the incremented name is "assignment
+		// requires lvalue" whatever follows (bash 5.2: `++x-- - 2`, `++x ++ 2`)
+		q := p.pos
+		for q < len(p.src) && isBlank(p.src[q]) {
+			q++
+		}
+		if q+1 < len(p.src) && (p.src[q] == '+' || p.src[q] == '-') && p.src[q+1] == p.src[q] {
+			p.err("assignment requires lvalue")
+		}
 		p.readtok()
 	case p.isOp("("):
 		p.readtok()
